@@ -294,17 +294,67 @@ func c07ExtractHelper(repo string) (string, string, error) {
 	if err != nil {
 		return "", "", err
 	}
+	// forMapInput / forMapOutput: a field is copied from the receiver or instantiated anew at one type
+	keyed := func(name string) ([][2]string, error) {
+		fn := c07MethodOf(f, "genericHelper", name)
+		if fn == nil || len(fn.Recv.List[0].Names) != 1 {
+			return nil, fmt.Errorf("method (*genericHelper).%s not found", name)
+		}
+		recv := fn.Recv.List[0].Names[0].Name
+		cl, err := c07HelperLiteral(fn)
+		if err != nil {
+			return nil, fmt.Errorf("%s: %v", name, err)
+		}
+		var tb [][2]string
+		for _, el := range cl.Elts {
+			kv, ok := el.(*ast.KeyValueExpr)
+			if !ok {
+				return nil, fmt.Errorf("%s: positional field", name)
+			}
+			if sel, ok := kv.Value.(*ast.SelectorExpr); ok && c07sq(sel.X) == recv {
+				tb = append(tb, [2]string{c07sq(kv.Key), "copy:" + sel.Sel.Name})
+				continue
+			}
+			used := map[string]bool{}
+			ast.Inspect(kv.Value, func(n ast.Node) bool {
+				if ix, ok := n.(*ast.IndexExpr); ok {
+					used[c07sq(ix.Index)] = true
+				}
+				return true
+			})
+			var us []string
+			for k := range used {
+				us = append(us, k)
+			}
+			sort.Strings(us)
+			if len(us) == 0 {
+				return nil, fmt.Errorf("%s: field %s is neither copied nor instantiated", name, c07sq(kv.Key))
+			}
+			tb = append(tb, [2]string{c07sq(kv.Key), "new:" + strings.Join(us, ",")})
+		}
+		return tb, nil
+	}
+	mapIn, err := keyed("forMapInput")
+	if err != nil {
+		return "", "", err
+	}
+	mapOut, err := keyed("forMapOutput")
+	if err != nil {
+		return "", "", err
+	}
 	var fs []string
 	for _, x := range fields {
 		fs = append(fs, c07CoqStr(x))
 	}
 	var b strings.Builder
-	b.WriteString(c07Header("HelperTable.v", "c07_helper", "compose/generic_helper.go (type genericHelper, newGenericHelper,\n   forPredecessorPassthrough, forSuccessorPassthrough)"))
+	b.WriteString(c07Header("HelperTable.v", "c07_helper", "compose/generic_helper.go (type genericHelper, newGenericHelper,\n   forPredecessorPassthrough, forSuccessorPassthrough, forMapInput, forMapOutput)"))
 	b.WriteString("From Eino Require Import Base.Util.\n\nDefinition tie_available : bool := true.\n\n")
 	b.WriteString("Definition helper_fields : list string :=\n  [" + strings.Join(fs, ";\n   ") + "].\n\n")
 	b.WriteString("Definition new_helper_table : list (string * string) :=\n  " + c07PairList(newT) + ".\n\n")
 	b.WriteString("Definition pred_table : list (string * string) :=\n  " + c07PairList(pred) + ".\n\n")
-	b.WriteString("Definition succ_table : list (string * string) :=\n  " + c07PairList(succ) + ".\n")
+	b.WriteString("Definition succ_table : list (string * string) :=\n  " + c07PairList(succ) + ".\n\n")
+	b.WriteString("Definition map_input_table : list (string * string) :=\n  " + c07PairList(mapIn) + ".\n\n")
+	b.WriteString("Definition map_output_table : list (string * string) :=\n  " + c07PairList(mapOut) + ".\n")
 	return "HelperTable.v", b.String(), nil
 }
 
